@@ -58,13 +58,16 @@ def cached_sources(key, tabs, layout):
 
 
 def dask_sources(tabs, layout):
-    """layout: {"T1": spec, "T2": spec}; spec = ("from_pandas", npartitions) | ("cuts", [row cut positions], known)"""
+    """layout: {"T1": spec, "T2": spec}; spec = ("from_pandas", npartitions) | ("from_array", chunksize) | ("cuts", [row cut positions], known)"""
     import dask_expr as dx
     out = {}
     for name, pdf in tabs.items():
         spec = layout.get(name, ("from_pandas", 2))
         if spec[0] == "from_pandas":
             out[name] = dx.from_pandas(pdf, npartitions=spec[1], sort=True)
+        elif spec[0] == "from_array":
+            # an array source selects columns by POSITION (labels come from the operand): positional index 0..n-1
+            out[name] = dx.from_array(pdf.to_numpy(dtype="float64"), chunksize=spec[1], columns=list(pdf.columns))
         else:
             cuts, known = spec[1], spec[2]
             bounds = [0] + list(cuts) + [len(pdf)]
@@ -149,6 +152,8 @@ def build(q, env, lib, knobs=None):
         return x[list(q["cols"])]
     if op == "col":
         return x[q["col"]]
+    if op == "drop":
+        return x.drop(columns=[q["col"]])
     if op == "filter":
         return x[_pred(x, q["pred"])]
     if op == "assign":
@@ -169,6 +174,12 @@ def build(q, env, lib, knobs=None):
             return -x
         if f == "astypefloat":
             return x.astype("float64")
+        if f == "abs":
+            return x.abs()
+        if f == "clip01":
+            return x.clip(lower=0, upper=1)
+        if f == "where0":
+            return x.where(x > 0, 0)
     if op == "dropna":
         return x.dropna()
     if op == "reduce":
@@ -261,6 +272,8 @@ def build(q, env, lib, knobs=None):
         return x.drop_duplicates(subset=sub, **kw)
     if op == "nlargest":
         return x.nlargest(q["n"], q["col"])
+    if op == "nsmallest":
+        return x.nsmallest(q["n"], q["col"])
     if op == "unique":
         if dask:
             kw = {kn: knobs[kn] for kn in ("split_every", "split_out", "shuffle_method") if kn in knobs}
